@@ -14,8 +14,8 @@ CLAIMED = {
 }
 
 CLAIMED["C01"] = {
-    "text": "Coq theorems over the quantizer generated from symmetric.py / qbytes.py on every run: (a) for any number type, rank and shape every element is quantized and dequantized with the scale of its own axis index; (b) in exact arithmetic clamp-round-divide is a nearest-grid projection that saturates; (c) in IEEE arithmetic (Flocq; float32/float16/bfloat16) qint8 codes are integers of [-128,127] stored without wrap, results are finite and within an explicit rounding slack of a closest grid point, including division overflow. All 2^16 float16 and bfloat16 inputs x 3 qtypes x scales are compared bit for bit between the Flocq model and torch.",
-    "note": "Trusted: Coq kernel + vm_compute, Flocq 4.1 as IEEE semantics, Reals axioms (sig_forall_dec, sig_not_dec, functional_extensionality_dep, classic); translators; coq/Lib vocabulary (broadcasting, casts) tied to torch by correspondence only. float8 nearest-point and requantization stability are decided by the audit (exact rational arithmetic) only, not yet by a theorem.",
+    "text": "Coq theorems over the quantizer generated from symmetric.py / qbytes.py on every run: (a) for any number type, rank and shape every element is quantized and dequantized with the scale of its own axis index; (b) in exact arithmetic clamp-round-divide is a nearest-grid projection that saturates; (c) in IEEE arithmetic (Flocq; float32/float16/bfloat16) qint8 codes are integers of [-128,127] stored without wrap, results are finite and within an explicit rounding slack of a closest grid point, including division overflow; (d) IEEE, float8 (e4m3fn and e5m2, three working formats): the stored code is a point of the storage grid, code and value are finite, the value is within the same slack of a closest point of the scaled grid (the double rounding quotient -> float8 is inside the slack), saturation at +-448 / +-57344 incl. quotient overflow; (e) IEEE, float32 and float16: re-quantizing the dequantized value with the same scale yields the same code, for every finite input and scale. All 2^16 float16 and bfloat16 inputs x 3 qtypes x scales are compared bit for bit between the Flocq model and torch.",
+    "note": "Trusted: Coq kernel + vm_compute, Flocq 4.1 as IEEE semantics, Reals axioms (sig_forall_dec, sig_not_dec, functional_extensionality_dep, classic); translators; coq/Lib vocabulary (broadcasting, casts; e4m3fn modelled as Flocq's (4,9) format at half scale bounded by 448) tied to torch by the exhaustive correspondence only. Requantization stability of the float8 types is decided by the audit (exact rational arithmetic) only.",
     "design": "6/C01",
     "technique": "Coq/Flocq proof over source-generated model + reflexivity tie + exhaustive 16-bit vm_compute correspondence",
 }
@@ -28,8 +28,8 @@ CLAIMED["C14"] = {
 }
 
 CLAIMED["C02"] = {
-    "text": "Coq theorems over group/ungroup, AffineQuantizer and the dequantizer as generated from the source on every run: ungroup inverts group for every rank/shape, both axes and every admissible group size (first axis: reshape; last axis: the two 3-d permutations cancel); every element is coded with the scale and zero-point of its own cell; in exact arithmetic, for a range containing zero and the element, zero-point and code lie in [0,2^bits-1] (no int8/uint8 wrap) and the dequantized value is within half a step. The implementation is audited in exact rational arithmetic group by group over degenerate classes and compared bit for bit with the Flocq evaluation of the generated model.",
-    "note": "Trusted: Coq kernel + vm_compute, Flocq, Reals axioms, translators, coq/Lib vocabulary (reshape/permute/broadcast/reduce) tied by correspondence. MaxOptimizer's range is proved (any number type) to be the hull of each cell and zero, cell by cell (max_optimize_cells). PARTIAL: the float-level slack and requantization stability are decided by the audit + correspondence only.",
+    "text": "Coq theorems over group/ungroup, AffineQuantizer and the dequantizer as generated from the source on every run: ungroup inverts group for every rank/shape, both axes and every admissible group size (first axis: reshape; last axis: the two 3-d permutations cancel); every element is coded with the scale and zero-point of its own cell; in exact arithmetic, for a range containing zero and the element, zero-point and code lie in [0,2^bits-1] (no int8/uint8 wrap) and the dequantized value is within half a step; the same nearest-point / half-step statement in IEEE arithmetic with an explicit rounding slack. The implementation is audited in exact rational arithmetic group by group over degenerate classes and compared bit for bit with the Flocq evaluation of the generated model.",
+    "note": "Trusted: Coq kernel + vm_compute, Flocq, Reals axioms, translators, coq/Lib vocabulary (reshape/permute/broadcast/reduce) tied by correspondence. MaxOptimizer's range is proved (any number type) to be the hull of each cell and zero, cell by cell (max_optimize_cells). IEEE level (Flocq, three working formats): for every finite element within 2^(prec-2) steps, every finite positive scale and integer zero-point of [0,L], the code is an integer of [0,L] stored without uint8/int8 wrap, the value is finite and a closest point of the affine grid up to an explicit slack, hence within half a step + slack inside the grid's span (C02_nearest_float*, C02_half_step_float*). PARTIAL: the float rounding inside MaxOptimizer (scale and zero-point as floats) and requantization stability are decided by the audit + correspondence only.",
     "design": "6/C02",
     "technique": "Coq proof over source-generated model + reflexivity tie + vm_compute correspondence + exact rational audit",
 }
@@ -41,8 +41,8 @@ CLAIMED["C03"] = {
 }
 
 CLAIMED["C16"] = {
-    "text": "Coq/Flocq theorems over the quantizer generated from the source on every run: for float32/float16/bfloat16 and qint8, EVERY finite element with EVERY finite non-negative scale whose grid is representable dequantizes to a finite value — including a zero scale (all-zero row, absmax/qmax underflow), where the float quotient is NaN or infinite and the proof goes through nan_to_num, round, clamp and the exact int8 cast; a zero scale dequantizes to exactly zero. The implementation is audited on tensors assembled from degenerate row/group classes in every mixture (all 5 qtypes), on calibration over zero/constant/tiny/huge batches and on zero-weight layers, with C01/C02's bounds re-checked.",
-    "note": "Trusted: Coq kernel + vm_compute, Flocq as IEEE semantics, Reals axioms, translators, vocabulary tied by correspondence. PARTIAL: float8 and int2/int4 finiteness, calibration and the zero-layer equality are decided by the audit and the bit-exact correspondence with the generated code, not by a theorem.",
+    "text": "Coq/Flocq theorems over the quantizer generated from the source on every run: for float32/float16/bfloat16 and qint8, qfloat8_e4m3fn, qfloat8_e5m2, EVERY finite element with EVERY finite non-negative scale whose grid is representable dequantizes to a finite value — including a zero scale (all-zero row, absmax/qmax underflow), where the float quotient is NaN or infinite and the proof goes through nan_to_num, round, clamp and the exact int8 cast; a zero scale dequantizes to exactly zero; int2/int4: a zero scale with the null zero-point gives an in-range code and exactly zero for every finite element, a positive scale a finite value (C02_nearest_float*). The implementation is audited on tensors assembled from degenerate row/group classes in every mixture (all 5 qtypes), on calibration over zero/constant/tiny/huge batches and on zero-weight layers, with C01/C02's bounds re-checked.",
+    "note": "Trusted: Coq kernel + vm_compute, Flocq as IEEE semantics, Reals axioms, translators, vocabulary tied by correspondence. PARTIAL: calibration followed by inference and the zero-layer equality are decided by the audit and the bit-exact correspondence with the generated code, not by a theorem; the int2/int4 theorem for positive scales assumes the element within 2^(prec-2) steps of zero (true of every scale the optimizers produce).",
     "design": "6/C16",
     "technique": "Coq/Flocq proof over source-generated model + reflexivity tie + degenerate-class audit",
 }
@@ -63,7 +63,7 @@ CLAIMED["C13"] = {
 
 CLAIMED["C05"] = {
     "text": "Coq theorems over a hand-written model of the dispatch (Model/QOps.v): every registered implementation of the three tables has a class (coverage, re-checked against the tables read from the decorators on every run); for ANY parametric data movement g and any number type, g applied to the dequantized tensor equals dequantizing the re-wrapped moved payload, and reshape / permute / slicing are such movements. Tie: tables and a fingerprint of the AST of every implementation and dispatch entry point. Random op programs (depth up to 8) run on the real tensors; after every step the result is compared with torch's op on the dequantized operands, exactly or with the per-class bound, and raising is compared with the float twin program.",
-    "note": "Trusted: Coq kernel; gen_ops.py; the hand-written class table (an implementation may change behaviour only by changing its AST, which breaks the fingerprint tie); torch as the oracle for the op on dequantized operands. Rescale (mul / div by a scalar) and sign (neg, relu) classes are proved equal to the float operation in exact arithmetic (relu for a non-negative scale; refuted for a negative one = F25). PARTIAL: the requant class (softmax, where, add of unequal scales) and all float rounding are decided by the audit's per-class bounds; contractions are C07's. Known findings F5 (neg of code -128) and F22 (where saturating) are reported as KNOWN-FINDING.",
+    "note": "Trusted: Coq kernel; gen_ops.py; the hand-written class table (an implementation may change behaviour only by changing its AST, which breaks the fingerprint tie); torch as the oracle for the op on dequantized operands. Rescale (mul / div by a scalar) and sign (neg, relu) classes are proved equal to the float operation in exact arithmetic (relu for a non-negative scale; refuted for a negative one = F25). The re-quantizing class (softmax with scale 1/127, where with the input scale) is proved in exact arithmetic to be within half a step of the float result when it fits the output grid, where() keeps the elements of the quantized input exactly (also at IEEE level for float32/float16: the float product s*k re-quantizes to k); saturation of where() beyond the grid is the refuted form = F22. PARTIAL: float rounding of the rescale / requant classes is decided by the audit's per-class bounds; contractions are C07's. Known findings F5 (neg of code -128) and F22 (where saturating) are reported as KNOWN-FINDING.",
     "design": "6/C05",
     "technique": "Coq proof (movement algebra, table coverage) + AST-fingerprint tie + differential op-program runs",
 }
